@@ -31,6 +31,7 @@ type RespSpec struct {
 	TrailerCase  int  // gRPC-Web trailer block names: 0 lower, 1 canonical, 2 upper
 	OmitMessage  bool // Connect error JSON without "message" when it is empty
 	MetaInEnd    bool // Connect streaming: send an (empty) "metadata" object even without metadata
+	CompressEnd  bool // compress the terminator frame too (Connect end-of-stream, gRPC-Web trailer frame) when Alg is set
 }
 
 func gz(p []byte) []byte {
@@ -115,7 +116,11 @@ func (s *RespSpec) Build() (status int, header http.Header, body []byte, trailer
 			end["metadata"] = md
 		}
 		eb, _ := json.Marshal(end)
-		body = append(body, Envelope(2, eb)...)
+		if s.CompressEnd && s.Alg != "" {
+			body = append(body, Envelope(3, s.compress(eb))...)
+		} else {
+			body = append(body, Envelope(2, eb)...)
+		}
 		return
 	}
 	// gRPC family
@@ -175,7 +180,11 @@ func (s *RespSpec) Build() (status int, header http.Header, body []byte, trailer
 	}
 	// an HTTP/1 field block: every line ends with CRLF, no terminating empty line
 	block := strings.Join(lines, "\r\n") + "\r\n"
-	body = append(body, Envelope(0x80, []byte(block))...)
+	if s.CompressEnd && s.Alg != "" {
+		body = append(body, Envelope(0x81, s.compress([]byte(block)))...)
+	} else {
+		body = append(body, Envelope(0x80, []byte(block))...)
+	}
 	return
 }
 
